@@ -199,6 +199,9 @@ def gen_plan(rng):
         # the server drops the connection as soon as the command's channel
         # is closed from both sides (the client may still hold unread data)
         'srv_hangup': rng.chance(20),
+        # ... without waiting for the channel to close: output, exit status,
+        # CLOSE and DISCONNECT leave in one burst
+        'hangup_at_once': rng.chance(50),
         # the command forwards two local sources instead of writing itself
         'srv_redirect': mode in ('reader', 'run') and rng.chance(15),
         'collect_poll': collect_poll,
@@ -767,6 +770,14 @@ def run_plan(plan, sched_seed=None, sched_replay=None):
         else:
             process.stdout.write_eof()
             process.close()
+
+        if plan.get('srv_hangup') and plan.get('hangup_at_once') and \
+                cmd == 'cmd' and mode in ('reader', 'run') and \
+                not process.channel.get_write_buffer_size():
+            # (everything the command wrote has been handed to the
+            # connection: a clean close sends it ahead of the disconnect)
+            sim.probes['server_hung_up_at_once'] += 1
+            process.get_extra_info('connection').close()
 
     plan['srv_window'] = plan['window']
 
